@@ -14,6 +14,7 @@ import (
 	"context"
 	"errors"
 	"fmt"
+	"io"
 	"os"
 	"path/filepath"
 	"strings"
@@ -731,10 +732,142 @@ func TestVerifC08(t *testing.T) {
 	r.Assume("the test zone answers a TXT query whose name holds U-labels as if it had been converted to A-labels (counted as observed_not_asserted_txt_lookup_with_u_label_name)")
 	r.Assume("header fields hold UTF-8 only in SMTPUTF8 messages; raw 8-bit bytes appear in bodies only; bare CR/LF and NUL are outside the quantifier")
 	ev.Run(t, r, ev.Spec[c08Case]{Name: "sign-spool-transmit-verify", Journal: true, N: r.Scale(1, 1, 1), Gen: c08Gen, Run: c08Run, Info: c08Info})
+	c08Cleanup()
+}
+
+func c08Cleanup() {
+	c08Mu.Lock()
+	defer c08Mu.Unlock()
 	if c08KeyDir != "" {
 		os.RemoveAll(c08KeyDir)
+		c08KeyDir = ""
 	}
+	c08Mods = map[string]*moddkim.Modifier{}
 	if c08Hop != nil {
 		c08Hop.Close()
+		c08Hop = nil
 	}
+}
+
+// ---- a transmission that fails half-way leaves nothing at the next hop ---------------------------------------
+
+type c08fCase struct {
+	Case   c08Case `json:"message"`
+	FailAt int     `json:"body_read_fails_after"` // octets of the body read before the spool file reader fails
+}
+
+type c08FailingBuffer struct {
+	data []byte
+	at   int
+}
+
+type c08FailingReader struct {
+	data []byte
+	at   int
+	pos  int
+}
+
+func (r *c08FailingReader) Read(p []byte) (int, error) {
+	if r.pos >= r.at {
+		return 0, errors.New("scripted I/O error while reading the spooled body")
+	}
+	n := copy(p, r.data[r.pos:r.at])
+	r.pos += n
+	return n, nil
+}
+func (r *c08FailingReader) Close() error { return nil }
+
+func (b c08FailingBuffer) Open() (io.ReadCloser, error) {
+	return &c08FailingReader{data: b.data, at: b.at}, nil
+}
+func (b c08FailingBuffer) Len() int      { return len(b.data) }
+func (b c08FailingBuffer) Remove() error { return nil }
+
+// c08fRun: the signed message is handed to the real SMTP client with a body whose reader fails after FailAt
+// octets. The client reports the failure; whatever the next hop accepted in the meantime must verify - in
+// practice: a cut-off message must not be completed and accepted.
+func c08fRun(fc c08fCase) (vs []ev.V) {
+	c := fc.Case
+	r := ev.Get("C08")
+	mod, err := c08Modifier(&c)
+	if err != nil {
+		r.HarnessError("modify.dkim init: %v", err)
+		return nil
+	}
+	c08Mu.Lock()
+	if c08Hop == nil {
+		c08Hop, err = verifx.StartNextHop(verifx.HopConfig{Name: "next.hop.test", UTF8: true})
+	}
+	hop := c08Hop
+	c08Mu.Unlock()
+	if err != nil {
+		r.HarnessError("next hop: %v", err)
+		return nil
+	}
+	ctx, cancel := context.WithTimeout(context.Background(), 30*time.Second)
+	defer cancel()
+	hdr, err := textproto.ReadHeader(bufio.NewReader(bytes.NewReader(append(append([]byte{}, c08Header(&c)...), '\r', '\n'))))
+	if err != nil {
+		return nil
+	}
+	full := buffer.MemoryBuffer{Slice: []byte(c.Body)}
+	meta := &module.MsgMetadata{ID: "c08fail", SMTPOpts: smtp.MailOptions{UTF8: c.EAI}, OriginalFrom: c.Sender}
+	st, err := mod.ModStateForMsg(ctx, meta)
+	if err != nil {
+		r.HarnessError("%v", err)
+		return nil
+	}
+	st.RewriteSender(ctx, c.Sender)
+	if err := st.RewriteBody(ctx, &hdr, full); err != nil || !hdr.Has("DKIM-Signature") {
+		st.Close()
+		return nil // covered by the main sub-check
+	}
+	st.Close()
+	dmod, _ := smtptarget.NewDownstream("target.smtp", "verif", nil, []string{"tcp://" + hop.Addr})
+	down := dmod.(*smtptarget.Downstream)
+	if err := down.Init(config.NewMap(map[string]interface{}{"hostname": "mx.maddy.test"}, config.Node{Children: []config.Node{{Name: "starttls", Args: []string{"no"}}}})); err != nil {
+		r.HarnessError("target.smtp init: %v", err)
+		return nil
+	}
+	before := len(hop.Messages())
+	d, err := down.Start(ctx, meta, c.Sender)
+	if err != nil {
+		r.HarnessError("start: %v", err)
+		return nil
+	}
+	if err := d.AddRcpt(ctx, "rcpt@next.hop.test", smtp.RcptOptions{}); err != nil {
+		d.Abort(ctx)
+		r.HarnessError("rcpt: %v", err)
+		return nil
+	}
+	at := fc.FailAt
+	if at > len(c.Body) {
+		at = len(c.Body)
+	}
+	berr := d.Body(ctx, hdr, c08FailingBuffer{data: []byte(c.Body), at: at})
+	if berr == nil {
+		d.Commit(ctx)
+		return []ev.V{ev.Vf("transmit-failure:error-swallowed", "the body reader failed after %d of %d octets but the SMTP client reported success", at, len(c.Body))}
+	}
+	d.Abort(ctx)
+	time.Sleep(5 * time.Millisecond)
+	for _, m := range hop.Messages()[before:] {
+		var ul bool
+		if v := c08VerifyRaw(m.Data, c08KeySet(&c), &ul); v.Err != nil || v.Sigs != 1 {
+			vs = append(vs, ev.Vf("transmit-failure:truncated-message-accepted", "reading the spooled body failed after %d of %d octets (the client reported: %v), yet the next hop accepted a message, and its signature does not verify: %v\nreceived: %q", at, len(c.Body), berr, v.Err, m.Data))
+		}
+	}
+	return vs
+}
+
+func TestVerifC08Failure(t *testing.T) {
+	r := ev.Get("C08")
+	ev.Run(t, r, ev.Spec[c08fCase]{Name: "transmit-failure", N: r.Scale(1, 4, 25), Journal: true, Gen: func(t *rapid.T) c08fCase {
+		c := c08Gen(t)
+		if len(c.Body) < 40 {
+			c.Body = ev.QS(string(c.Body) + strings.Repeat("filler line of the body\r\n", 40))
+		}
+		return c08fCase{Case: c, FailAt: rapid.IntRange(0, len(c.Body)-1).Draw(t, "fail_at")}
+	}, Run: c08fRun, Info: func(fc c08fCase) ev.Info { return ev.Info{Nontrivial: fc.FailAt > 0} }})
+	c08Cleanup()
 }
